@@ -390,6 +390,43 @@ type c15Graph struct {
 	Static   bool              `json:"static_only"`
 }
 
+// c15AliasGraph: 3–5 library files that all export top-level bindings drawn from {x, x2, x3, x22, e, e2}, imported by two
+// entry points. In a splitting build the libraries share one chunk, whose cross-chunk export aliases are made unique with
+// numbered suffixes — suffixes that are themselves the declared names of other exported symbols.
+func c15AliasGraph(rng *Rng) c15Graph {
+	names := []string{"x", "x2", "x3", "x22", "e", "e2"}
+	n := 3 + rng.Intn(3)
+	files := map[string]string{}
+	var imports, reads []string
+	for j := 0; j < n; j++ {
+		var b strings.Builder
+		fmt.Fprintf(&b, "$(\"file\", %d);\n", j)
+		var items []string
+		for k, nm := range names {
+			if k > 0 && rng.Intn(3) == 0 {
+				continue
+			}
+			switch rng.Intn(3) {
+			case 0:
+				fmt.Fprintf(&b, "export let %s = \"%s-of-f%d\";\n", nm, nm, j)
+			case 1:
+				fmt.Fprintf(&b, "export function %s() { return \"%s-of-f%d\"; }\n", nm, nm, j)
+			default:
+				fmt.Fprintf(&b, "export class %s { static v = \"%s-of-f%d\"; }\n", nm, nm, j)
+			}
+			items = append(items, fmt.Sprintf("%s as %s_%d", nm, nm, j))
+			reads = append(reads, fmt.Sprintf("typeof %s_%d === \"function\" ? (%s_%d.v || %s_%d()) : %s_%d", nm, j, nm, j, nm, j, nm, j))
+		}
+		b.WriteString("export default 0;\n")
+		files[fmt.Sprintf("/f%d.js", j)] = b.String()
+		imports = append(imports, fmt.Sprintf("import {%s} from \"./f%d.js\";", strings.Join(items, ", "), j))
+	}
+	for e := 0; e < 2; e++ {
+		files[fmt.Sprintf("/f%d.js", n+e)] = strings.Join(imports, "\n") + fmt.Sprintf("\n$(\"file\", %d);\n$(\"reads\", %d, %s);\nexport default %d;\n", n+e, e, strings.Join(reads, ", "), e)
+	}
+	return c15Graph{Files: files, Entries: []string{fmt.Sprintf("/f%d.js", n+1), fmt.Sprintf("/f%d.js", n)}}
+}
+
 // ES-module graph: every file is a scopegen module; later files import pool-named bindings from earlier ones.
 func c15EsmGraph(rng *Rng) c15Graph {
 	n := 2 + rng.Intn(4)
@@ -558,7 +595,10 @@ func c15Bundles(r *Run, pool *Pool, st *c15Stats, prelude string) {
 	parallel(n, pool.Size(), func(i int) {
 		rng := newRng(r.Seed, fmt.Sprint("c15bundle", i))
 		var gr c15Graph
-		if i%3 == 2 {
+		aliasGraph := i%11 == 10
+		if aliasGraph {
+			gr = c15AliasGraph(rng)
+		} else if i%3 == 2 {
 			gr = c15MixedGraph(rng)
 		} else {
 			gr = c15EsmGraph(rng)
@@ -573,6 +613,9 @@ func c15Bundles(r *Run, pool *Pool, st *c15Stats, prelude string) {
 			vs = []c15BundleVariant{variants[a], variants[b]}
 			if a == b {
 				vs = vs[:1]
+			}
+			if aliasGraph {
+				vs = []c15BundleVariant{variants[6], variants[7], variants[0]}
 			}
 			if gr.Static {
 				// static-only graphs cost one build and one parse per variant: always include the plain esm bundle
